@@ -4,8 +4,15 @@
    rationals, the regressors' model is evaluated in Q (reduced after every operation), the CP_PLSR model in
    binary fixed point with 70 fractional bits (Zfx below), and compared with tolerance. *)
 From Coq Require Import List Arith ZArith QArith Bool.
-From TLV Require Import Base.Shape Base.PyList Base.Tensor Base.Ops Model.Base Model.Regress Corr.Common.
+From TLV Require Import Base.Shape Base.PyList Base.Tensor Base.Ops Model.Base Model.Regress Model.RegressObj Corr.Common.
 Import ListNotations.
+
+Inductive qcall :=
+| QFit (X Y : tensor Q) (itape : list (tensor Q * list (tensor Q))) (btape : list (list Q))
+| QFitTransform (X Y : tensor Q) (itape : list (tensor Q * list (tensor Q))) (btape : list (list Q))
+| QPredict (X : tensor Q)
+| QTransform (X : tensor Q) (Yo : option (tensor Q))
+| QSetParams (ncomp n_iter : nat) (tol : Q).
 
 Inductive kase :=
 | KPredCPZ (W X : tensor Z) (expected : res (tensor Z))
@@ -33,10 +40,10 @@ Inductive kase :=
    n_iter_max = 1, 2, ... and no stopping); T.solve answers are read from the tape and, from pass 2 on, certified
    (A x = B) against the model's design matrices; the run (n_iter_max, tol) must store eW / efs *)
 | KCpLoop (n_iter : nat) (tol reg : Q) (R : nat) (so : list nat) (X y : tensor Q) (W0 : list (tensor Q))
-          (tape : list (list (tensor Q))) (eW : tensor Q) (efs : list (tensor Q))
+          (tape : list (list (tensor Q))) (eW : tensor Q) (efs : list (tensor Q)) (e_nit : nat) (e_norms : list Q)
 (* TuckerRegressor.fit: the same around the concrete factor and core blocks; tape of (core, factors) *)
 | KTkLoop (n_iter : nat) (tol reg : Q) (X y : tensor Q) (G0 : tensor Q) (W0 : list (tensor Q))
-          (tape : list (tensor Q * list (tensor Q))) (eW : tensor Q)
+          (tape : list (tensor Q * list (tensor Q))) (eW : tensor Q) (e_nit : nat) (e_norms : list Q)
 (* W0 / G0 = the random initial factors (replayed from the seeded generator): with them pass 1 is certified too; W0 = [] : unknown
    (pass 1 played back) *)
 (* CP_PLSR.fit on consistently re-ordered samples (X[p], Y[p]): the implementation's results on the re-ordered data against the
@@ -46,6 +53,14 @@ Inductive kase :=
            (e_yloads : list (tensor Q)) (e_yscores : list (list Q))
 (* the budget test of CP_PLSR.fit: does fit raise? *)
 | KPlsrBudget (n_iter ncomp : nat) (X Y : tensor Q) (raised : bool)
+(* one CPRegressor (cp = true) / TuckerRegressor object under a sequence of calls.  Prm = (n_iter_max, the other constructor
+   parameters as numbers); a fit call names an entry of `fits`: the (weights | core, factors) a FRESH object exposes after the
+   same fit (None: that fit raised); expected = what each call on the ONE re-used object returned *)
+| KRegSeq (cp : bool) (p0 : nat * list Q) (fits : list (option (tensor Q * list (tensor Q))))
+          (calls : list (rcall (F:=Q) (Prm:=nat * list Q) (D:=nat))) (expected : list (rout (F:=Q) (Prm:=nat * list Q)))
+(* one CP_PLSR object under a sequence of calls (validation, attributes, call-time n_components); each fit call carries the
+   answers of initialize_cp / lstsq recorded from a fresh object's identical fit *)
+| KPlsrSeq (ncomp n_iter : nat) (tol : Q) (calls : list qcall) (expected : list (pout (F:=Q)))
 (* T.mean(X, axis=0) and the centring *)
 | KMean (X expected : tensor Q)
 (* the whole of CP_PLSR.fit with a fixed number of passes (tol = 0: never stops early; tol huge: stops after the
@@ -138,7 +153,7 @@ Definition cp_loop_run (n_iter : nat) (tol reg : Q) (R : nat) (so : list nat) (X
     let newfs := map t_to_fx (nth (fst st) tape []) in
     (S (fst st), cp_sweep Zfx (solve_chk (known || (0 <? fst st)) kin newfs) (to_fx reg) Xz yz so R
                    (if (fst st =? 0) && negb known then newfs else snd st)) in
-  reg_fit sweep (fun st => Regress.cp_to_tensor Zfx (ones_fx R) (snd st)) znorm (zsmall (to_fx tol)) n_iter (0, map t_to_fx W0).
+  reg_fit_full sweep (fun st => Regress.cp_to_tensor Zfx (ones_fx R) (snd st)) znorm (zsmall (to_fx tol)) n_iter (0, map t_to_fx W0).
 Definition tk_solve_chk (check : bool) (newb : tensor Z * list (tensor Z)) (i : nat) (A B : tensor Z) : tensor Z :=
   let t := if i <? length (snd newb) then nth i (snd newb) (mk [] []) else fst newb in
   let x := reshape [prod (shape t)] t in
@@ -152,10 +167,58 @@ Definition tk_loop_run (n_iter : nat) (tol reg : Q) (X y : tensor Q) (G0 : tenso
     let newb := (t_to_fx (fst e), map t_to_fx (snd e)) in
     (S (fst st), tk_concrete_sweep Zfx (tk_solve_chk (known || (0 <? fst st)) newb) (to_fx reg) Xz yz
                    (if (fst st =? 0) && negb known then newb else snd st)) in
-  reg_fit sweep (fun st => Regress.tucker_to_tensor Zfx (fst (snd st)) (snd (snd st))) znorm (zsmall (to_fx tol)) n_iter
+  reg_fit_full sweep (fun st => Regress.tucker_to_tensor Zfx (fst (snd st)) (snd (snd st))) znorm (zsmall (to_fx tol)) n_iter
           (0, (t_to_fx G0, map t_to_fx W0)).
-Definition passes_eq {P} (a b : res (reg_stored (F:=Z) (P:=P))) (f : P -> nat) : bool :=
-  match a, b with Ok x, Ok y => Nat.eqb (f (r_blocks x)) (f (r_blocks y)) | _, _ => false end.
+Definition passes_eq {P} (a b : res (reg_full (F:=Z) (P:=P))) (f : P -> nat) : bool :=
+  match a, b with Ok x, Ok y => Nat.eqb (f (r_blocks (rf_stored x))) (f (r_blocks (rf_stored y))) | _, _ => false end.
+(* n_iterations_ and norm_W_ *)
+Definition trace_ok {P} (r : reg_full (F:=Z) (P:=P)) (e_nit : nat) (e_norms : list Q) : bool :=
+  Nat.eqb (rf_n_iterations r) e_nit && q_list_close ftol ftol (map of_fx (rf_norm_W r)) e_norms.
+
+(* ---- the regressor objects ---- *)
+Definition RPrm := (nat * list Q)%type.
+Definition seq_fit (cp : bool) (fits : list (option (tensor Q * list (tensor Q)))) (p : RPrm) (d : nat)
+  : res (reg_stored (F:=Q) (P:=tensor Q * list (tensor Q))) :=
+  let rebuild := if cp then cp_rebuild Qops else tucker_rebuild Qops in
+  reg_fit (fun _ => match nth d fits None with Some b => b | None => (mk [] [], []) end) rebuild (fun _ => 0%Q) (fun _ _ => false)
+          (match nth d fits None with Some _ => Nat.min (fst p) 1 | None => 0 end) (mk [] [], []).
+Definition seq_predict (cp : bool) (st : reg_stored (F:=Q) (P:=tensor Q * list (tensor Q))) (X : tensor Q) : res (tensor Q) :=
+  if cp then predict_cp Qops (r_weight_tensor st) X else rbind (r_vec st) (fun v => predict_tucker Qops v X).
+Definition prm_eqb (a b : RPrm) : bool := Nat.eqb (fst a) (fst b) && q_list_eqb (snd a) (snd b).
+Definition rout_close (a e : rout (F:=Q) (Prm:=RPrm)) : bool :=
+  match a, e with
+  | OSelf, OSelf => true
+  | ORaise, ORaise => true
+  | OTensor t, OTensor u => qt_close atol rtol t u
+  | OParams p, OParams q => prm_eqb p q
+  | _, _ => false
+  end.
+
+(* ---- the CP_PLSR object ---- *)
+Definition fx_init itape := fun Z => map t_to_fx (init_of itape (t_of_fx Z)).
+Definition fx_solve btape := fun (G : list (list Z)) (b : list Z) => map to_fx (solve_of btape G b).
+Fixpoint plsr_seq (o : pobj (F:=Z)) (cs : list qcall) : list (pout (F:=Z)) :=
+  match cs with
+  | [] => []
+  | c :: rest =>
+      let s := match c with
+               | QFit X Y it bt => pstep Zfx zsqrt (fx_init it) (fx_solve bt) o (PFit (t_to_fx X) (t_to_fx Y))
+               | QFitTransform X Y it bt => pstep Zfx zsqrt (fx_init it) (fx_solve bt) o (PFitTransform (t_to_fx X) (t_to_fx Y))
+               | QPredict X => pstep Zfx zsqrt (fx_init []) (fx_solve []) o (PPredict (t_to_fx X))
+               | QTransform X Yo => pstep Zfx zsqrt (fx_init []) (fx_solve []) o
+                                      (PTransform (t_to_fx X) (match Yo with Some Y => Some (t_to_fx Y) | None => None end))
+               | QSetParams k n t => pstep Zfx zsqrt (fx_init []) (fx_solve []) o (PSetParams (mkPprm k n (to_fx t)))
+               end in
+      snd s :: plsr_seq (fst s) rest
+  end.
+Definition pout_close (a : pout (F:=Z)) (e : pout (F:=Q)) : bool :=
+  match a, e with
+  | PSelf, PSelf => true
+  | PRaise, PRaise => true
+  | PTensor t, PTensor u => qt_close ftol ftol (t_of_fx t) u
+  | PPair t t', PPair u u' => qt_close ftol ftol (t_of_fx t) u && qt_close ftol ftol (t_of_fx t') u'
+  | _, _ => false
+  end.
 
 Definition agree_k (k : kase) : bool :=
   match k with
@@ -180,21 +243,26 @@ Definition agree_k (k : kase) : bool :=
       let lo := plsr_run n_iter ncomp (tol * (4 # 5))%Q itape btape X Y in
       let hi := plsr_run n_iter ncomp (tol * (5 # 4))%Q itape btape X Y in
       if plsr_same lo hi then plsr_close lo e_loads e_scores e_yloads e_yscores else true
-  | KCpLoop n_iter tol reg R so X y W0 tape eW efs =>
+  | KRegSeq cp p0 fits calls expected =>
+      all2 rout_close (snd (rrun (seq_fit cp fits) (seq_predict cp) (mkRobj p0 None) calls)) expected
+  | KPlsrSeq ncomp n_iter tol calls expected =>
+      all2 pout_close (plsr_seq (mkPobj (mkPprm ncomp n_iter (to_fx tol)) None) calls) expected
+  | KCpLoop n_iter tol reg R so X y W0 tape eW efs e_nit e_norms =>
       let lo := cp_loop_run n_iter (tol * (4 # 5))%Q reg R so X y W0 tape in
       let hi := cp_loop_run n_iter (tol * (5 # 4))%Q reg R so X y W0 tape in
       if passes_eq lo hi fst then
         match lo with
-        | Ok st => qt_close ftol ftol (t_of_fx (r_weight_tensor st)) eW &&
-                   all2 (fun a e => qt_close ftol ftol (t_of_fx a) e) (snd (r_blocks st)) efs
+        | Ok r => let st := rf_stored r in
+                   qt_close ftol ftol (t_of_fx (r_weight_tensor st)) eW &&
+                   all2 (fun a e => qt_close ftol ftol (t_of_fx a) e) (snd (r_blocks st)) efs && trace_ok r e_nit e_norms
         | Err => false
         end
       else true
-  | KTkLoop n_iter tol reg X y G0 W0 tape eW =>
+  | KTkLoop n_iter tol reg X y G0 W0 tape eW e_nit e_norms =>
       let lo := tk_loop_run n_iter (tol * (4 # 5))%Q reg X y G0 W0 tape in
       let hi := tk_loop_run n_iter (tol * (5 # 4))%Q reg X y G0 W0 tape in
       if passes_eq lo hi fst then
-        match lo with Ok st => qt_close ftol ftol (t_of_fx (r_weight_tensor st)) eW | Err => false end
+        match lo with Ok r => qt_close ftol ftol (t_of_fx (r_weight_tensor (rf_stored r))) eW && trace_ok r e_nit e_norms | Err => false end
       else true
   | KPlsrTransformY xm ym loads bs qs X Y e =>
       let Tc := transform_cols Zfx (center Zfx (t_to_fx X) (t_to_fx xm)) (map (map t_to_fx) loads) in
